@@ -16,6 +16,13 @@ from .. import common, progs
 from . import _trace
 
 POOL = re.compile(r'(asyncio|ThreadPoolExecutor-\d+)_\d+')
+CORPUS = [
+    "v6 = 0\nwhile v6 < 2:\n    v6 += 1\n    try:\n        raise KeyError('e1')\n    except KeyError as err:\n        print('caught')\n",
+    "def f():\n    v6 = 0\n    while v6 < 2:\n        v6 += 1\n        try:\n            raise KeyError('e1')\n        except KeyError as err:\n"
+    "            print('caught')\nf()\nx = 1\nprint('after', x)\n",
+    "for i in range(2):\n    try:\n        1 // 0\n    except ZeroDivisionError as err:\n        print('caught', i)\n",
+    "import contextlib\nfor i in range(2):\n    with contextlib.suppress(KeyError):\n        raise KeyError(i)\n",
+]
 CALLABLE_TMPL = 'def main():\n{body}\n    return {ret}\n'
 
 
@@ -186,6 +193,12 @@ def run(chk: common.Check) -> None:
         s['decoys'] = False
         s['nonresuming_first'] = False
         specs.append(s)
+    # corpus: minimised past failures, every command policy (F-K2: the last bytecode of the script / of a function has no line number)
+    for src in CORPUS:
+        for pol in _trace.POLICIES + [{'kind': 'random', 'seed': 3, 'choices': ['step', 'until', 'next', 'return']}]:
+            for form in ('str', 'path'):
+                specs.append({'source': src, 'policy': pol, 'statement_kind': form, 'kind': 'corpus', 'trace_threads': True, 'trace_modules': False,
+                              'want_recorder': False})
     # a syntax error in each form that is compiled by the child
     for form in ('str', 'path'):
         specs.append({'source': 'x = (\n', 'policy': {'kind': 'all', 'command': 'next'}, 'statement_kind': form, 'kind': 'syntax-error',
